@@ -6,24 +6,25 @@ package main
 // error, exit 2, not a finding).
 
 type GenCfg struct {
-	Budget    int  // node budget
-	Calls     bool // external calls allowed
-	Dyn       bool // dynamically typed values (Va results, the Any member) allowed
-	Failing   bool // operations that may fail on data (division by Z, index K, nil member, run-time regexp)
-	Strings   bool
-	Closures  bool
-	Maps      bool
-	Objects   bool
-	AnyUsable bool // the Any member is non-nil (needed for map environments)
-	ShortPred bool // all/any/none/one (predicates never contain calls)
-	ConstFns  bool // CI/CS/CB calls (for ConstExpr scenarios)
-	AllocOnly bool // restrict sequences to run-time allocating forms (C06)
-	SliceCall bool // allow calls in slice bounds (two-call slices expose the bound-order finding)
-	NilSafe   bool
-	NoInRange bool // do not generate `x in <literal range>` (development aid)
+	Budget       int  // node budget
+	Calls        bool // external calls allowed
+	Dyn          bool // dynamically typed values (Va results, the Any member) allowed
+	Failing      bool // operations that may fail on data (division by Z, index K, nil member, run-time regexp)
+	Strings      bool
+	Closures     bool
+	Maps         bool
+	Objects      bool
+	AnyUsable    bool // the Any member is non-nil (needed for map environments)
+	ShortPred    bool // all/any/none/one (predicates never contain calls)
+	ConstFns     bool // CI/CS/CB calls (for ConstExpr scenarios)
+	AllocOnly    bool // restrict sequences to run-time allocating forms (C06)
+	SliceCall    bool // allow calls in slice bounds (two-call slices expose the bound-order finding)
+	NilSafe      bool
+	NoInRange    bool // do not generate `x in <literal range>` (development aid)
 	NarrowBounds bool // C06: run-time range bounds of narrow integer kinds (ranges of a few hundred elements)
-	Overload  bool // the ** operator is overloaded for two *Obj operands (OpA)
-	MapRep    bool // the environment is a map[string]interface{}: lower-case members exist, Any has its value's static type
+	Pow          bool // numeric ** (a float) compared with an int
+	Overload     bool // the ** operator is overloaded for two *Obj operands (OpA)
+	MapRep       bool // the environment is a map[string]interface{}: lower-case members exist, Any has its value's static type
 }
 
 type gen struct {
@@ -34,7 +35,7 @@ type gen struct {
 	noCalls int      // >0 inside a short-circuiting predicate
 }
 
-var strPool = []string{"", "a", "ab", "é", "日本語", "x y", "k1", "k2", "zz", `q"t`, `b\s`, "ключ", "abcab"}
+var strPool = []string{"", "a", "ab", "é", "日本語", "x y", "k1", "k2", "zz", `q"t`, `b\s`, "ключ", "abcab", "e\u0301x"} // the last one: a base letter and a combining mark, two runes and two columns
 var keyPool = []string{"k1", "k2", "k3", "ключ", "zz"}
 var rePool = []string{"^a", "b+", "k[0-9]", ".*", "é$", "x.y"}
 var intMembers = []string{"A", "B", "C", "D", "N", "M", "K"}
@@ -407,6 +408,15 @@ func (g *gen) Bool() *N {
 		case 0:
 			return g.boolLeaf()
 		case 1, 2, 3:
+			if g.cfg.Pow && g.r.Chance(1, 6) {
+				// exponentiation binds tighter than the other binary operators and
+				// looser than a sign: (-A) ** 2, compared with an int (the power is a float)
+				base := g.Int()
+				if g.r.Chance(1, 2) {
+					base = nUn(g.r.Pick([]string{"-", "+"}), g.intLeaf())
+				}
+				return nBin(g.r.Pick([]string{"<", "<=", ">", ">="}), nBin("**", base, nInt(g.r.Range(0, 3))), g.Int())
+			}
 			op := g.r.Pick([]string{"<", "<=", ">", ">=", "==", "!="})
 			return nBin(op, g.Int(), g.Int())
 		case 4, 5:
@@ -487,7 +497,13 @@ func (g *gen) Bool() *N {
 			if !g.cfg.Strings {
 				continue
 			}
-			switch g.r.Intn(4) {
+			switch g.r.Intn(5) {
+			case 4:
+				// a pattern per element: every evaluation of matches reads its own pattern
+				if !g.cfg.ShortPred || !g.cfg.Closures {
+					continue
+				}
+				return nBi(g.r.Pick([]string{"all", "any", "none", "one"}), nID("Ss"), nBin("matches", g.strLeaf(), nPtr()))
 			case 3:
 				// the pattern is a constant concatenation (folded by the optimiser),
 				// possibly ill-formed: then evaluation fails at run time
@@ -830,7 +846,11 @@ func (g *gen) MapExpr() *N {
 	k := g.r.Intn(4)
 	pairs := make([]*N, 0, k)
 	for i := 0; i < k; i++ {
-		pairs = append(pairs, nPair(keyPool[i], g.Int()))
+		key := keyPool[i]
+		if i > 0 && g.r.Chance(1, 4) {
+			key = keyPool[g.r.Intn(i)] // a key written twice: the first pair's value stays
+		}
+		pairs = append(pairs, nPair(key, g.Int()))
 	}
 	return nMap(pairs...)
 }
